@@ -153,6 +153,23 @@ class PyExec:
             self.ca_new(int(t[1]), None if t[2] == 'n' else int(t[2]), t[3] != '0')
         elif op.startswith('ca.'):
             self.ca_op(op, t)
+        elif op == 'd22.new':
+            self.d22_new(int(t[1]), None if t[2] == 'n' else int(t[2]), int(t[3]), parse_list(t[4]))
+        elif op == 'd22.send':
+            d = self.d22[int(t[1])]
+            tl = int(t[8])
+            r = d['dll'].send_pgn(int(t[2]), int(t[3]), int(t[4]), int(t[5]), int(t[6]), parse_list(t[7]), sim.VT(tl) if tl else 0, int(t[9]))
+            o.append(f"ret {r}")
+        elif op == 'd22.rx':
+            d = self.d22[int(t[1])]
+            data = parse_list(t[3])
+            d['dll'].notify(int(t[2]), bytearray(data) if all(x < 256 for x in data) else data, 0)
+        elif op == 'd22.tick':
+            d = self.d22[int(t[1])]
+            nw = d['dll'].async_job_thread(self.w.clock.time())
+            o.append(f"wakeup {sim.us(nw) - self.w.now}")
+        elif op == 'd22.dump':
+            o.append(self.d22_dump(int(t[1])))
         elif op == 'dm1.send':
             o.append(self.dm1_send(int(t[1]), parse_list(t[2]), parse_list(t[3])))
         elif op == 'dm1.parse':
@@ -185,6 +202,45 @@ class PyExec:
         dll.add_ca(FakeCa())
         d['dll'] = dll
         self.d21.append(d)
+
+    def d22_new(self, maxcmdt, cmdt, bam, acc):
+        if not hasattr(self, 'd22'):
+            self.d22 = []
+        ex = self
+        d = dict(acc=set(acc))
+
+        class FakeCa:
+            _device_address_preferred = None
+
+            def message_acceptable(self, dest):
+                return dest == 255 or dest in d['acc']
+
+            def _process_addressclaim(self, mid, data, ts):
+                ex.out.append(f"claim {mid.source_address} {fmt_list(data)}")
+
+            def _process_request(self, mid, dest, data, ts):
+                ex.out.append(f"request {mid.source_address} {dest} {fmt_list(data)}")
+        J = sys.modules['j1939.j1939_22'].J1939_22
+        dll = J(lambda cid, ext, data, fd_format=False: ex.out.append(f"tx {cid} {1 if ext else 0} {fmt_list(data)}"),
+                lambda: ex.out.append("wake"),
+                lambda prio, pgn, sa, dest, ts, data: ex.out.append(f"notify {prio} {pgn} {sa} {dest} {fmt_list(data)}"),
+                maxcmdt, None if cmdt is None else sim.VT(cmdt), sim.VT(bam), lambda dest: False)
+        dll.add_ca(FakeCa())
+        d['dll'] = dll
+        self.d22.append(d)
+
+    def d22_dump(self, i):
+        dll = self.d22[i]['dll']
+        bools = lambda l: "".join('1' if x else '0' for x in l)
+        r = ",".join(f"{k}:{b['pgn']}:{b['session']}:{b['message_size']}:{b['num_segments']}:{b['next_packet']}:{b.get('next_cts_border', '-')}:"
+                     f"{b.get('num_segments_max_rec', '-')}:{sim.us(b['deadline'])}:{b['src_address']}:{b['dest_address']}:{fmt_list(b['data'])}"
+                     for k, b in dll._rcv_buffer.items())
+        t = ",".join(f"{k}:{b['pgn']}:{b['priority']}:{b['session']}:{b['message_size']}:{b['num_segments']}:{b['state']}:{sim.us(b['deadline'])}:"
+                     f"{b['src_address']}:{b['dest_address']}:{b['next_packet_to_send']}:{b.get('next_wait_on_cts', '-')}:{len(b['data'])}"
+                     for k, b in dll._snd_buffer.items())
+        m = ",".join(f"{k}:{sim.us(b['deadline'])}:{b['fill_level']}:" + "/".join(f"{c['priority']}.{c['cpgn']}.{fmt_list(c['data'])}" for c in b['cpg'])
+                     for k, b in dll._multi_pg_snd_buffer.items())
+        return f"rcv {r} | snd {t} | mpg {m} | pools {bools(dll._J1939_22__rts_cts_session_list)} {bools(dll._J1939_22__bam_session_list)}"
 
     def d21_dump(self, i):
         dll = self.d21[i]['dll']
